@@ -92,6 +92,9 @@ func (v DenseReal64Vector) SET(w DenseReal64Vector) {
   }
 }
 func (v DenseReal64Vector) SLICE(i, j int) DenseReal64Vector {
+  if i < 0 || j > len(v) || i > j {
+    panic("Slice(): range is out of bounds")
+  }
   return v[i:j]
 }
 func (v DenseReal64Vector) APPEND(w DenseReal64Vector) DenseReal64Vector {
@@ -142,6 +145,9 @@ func (v DenseReal64Vector) ReverseOrder() {
   }
 }
 func (v DenseReal64Vector) Slice(i, j int) Vector {
+  if i < 0 || j > len(v) || i > j {
+    panic("Slice(): range is out of bounds")
+  }
   return v[i:j]
 }
 func (v DenseReal64Vector) Swap(i, j int) {
@@ -205,6 +211,9 @@ func (v DenseReal64Vector) ConstAt(i int) ConstScalar {
   return v[i]
 }
 func (v DenseReal64Vector) ConstSlice(i, j int) ConstVector {
+  if i < 0 || j > len(v) || i > j {
+    panic("Slice(): range is out of bounds")
+  }
   return v[i:j]
 }
 func (v DenseReal64Vector) AsConstMatrix(n, m int) ConstMatrix {
@@ -219,6 +228,9 @@ func (v DenseReal64Vector) MagicAt(i int) MagicScalar {
   return v.AT(i)
 }
 func (v DenseReal64Vector) MagicSlice(i, j int) MagicVector {
+  if i < 0 || j > len(v) || i > j {
+    panic("Slice(): range is out of bounds")
+  }
   return v[i:j]
 }
 func (v DenseReal64Vector) ResetDerivatives() {
